@@ -33,6 +33,8 @@ pub fn type_universe(tier: Tier) -> Vec<Rc<RT>> {
         RT::sum(&RT::sum(&RT::unit(), &RT::word(2)), &RT::word(1)),
     ];
     v.extend(extra);
+    // types whose padding flag is decided by one child only (see padding_flag_family)
+    v.extend(crate::reference::tyval::padding_flag_family(tier.pick(6, 7)));
     if tier == Tier::Thorough {
         v.extend([
             RT::word(4),
